@@ -11,7 +11,8 @@
 (*        policy "RR" | "BF", named [task -> pilot | "none"],              *)
 (*        cores [task -> Nat], hwm [pilot -> Nat], lo, hi (eligible state  *)
 (*        window as PVal numbers), devEarly, devRaise, devAddFresh,        *)
-(*        devCtrRaise, devHalfValid (deviations, see TmgrSched)            *)
+(*        devCtrRaise, devHalfValid, devKnownRaises (deviations, see       *)
+(*        TmgrSched)                                                       *)
 (* cs : the scheduler's own bookkeeping                                    *)
 (*        role  [pilot -> "none" | "added" | "removed"]    _pilots[p][role]*)
 (*        pst   [pilot -> state name]                      _pilots[p][state]*)
@@ -104,20 +105,33 @@ BFSchedule(K, cs) ==
            IN  [cs |-> [cs EXCEPT !.info = r.info, !.wait = r.wait], fwd |-> r.fwd]
 
 (* ---- work(tasks): early binding filter, then the policy's _work ---------- *)
+\* A named pilot is in one of three situations: added at some time (role # none: its
+\* document is known, the task is bound and forwarded), known through a state
+\* notification only (a record exists, pst # none, but no document), or unknown.  In
+\* the last two the task is parked in _early.  devKnownRaises: the record of a pilot
+\* known through a notification is taken for a document (None): work() leaves with an
+\* exception in the middle of the bulk.
 RECURSIVE WorkLoop(_, _, _, _, _, _)
 WorkLoop(K, cs, B, i, fwd, tos) ==
-  IF i > Len(B) THEN [cs |-> cs, fwd |-> fwd, tos |-> tos]
+  IF i > Len(B) THEN [cs |-> cs, fwd |-> fwd, tos |-> tos, ex |-> FALSE]
   ELSE LET t == B[i]
            p == K.named[t]
        IN  IF p = "none" THEN WorkLoop(K, cs, B, i + 1, fwd, Append(tos, t))
            \* _pilots[pid][pilot] is set once the pilot was added (and stays)
            ELSE IF cs.role[p] # "none"
                 THEN WorkLoop(K, cs, B, i + 1, Append(fwd, <<t, p>>), tos)
+           ELSE IF K.devKnownRaises /\ cs.pst[p] # "none"
+                THEN [cs |-> cs, fwd |-> fwd, tos |-> tos, ex |-> TRUE]
                 ELSE WorkLoop(K, [cs EXCEPT !.early[p] = Append(@, t)], B, i + 1, fwd, tos)
+
+\* fail: an exception which leaves work() is caught by Component.work_cb, which then
+\* advances the WHOLE bulk to FAILED - also the tasks which were pushed on already
+FailOf(r) == IF "fail" \in DOMAIN r THEN r.fail ELSE <<>>
 
 StepSubmit(K, cs, B) ==
   LET w == WorkLoop(K, cs, B, 1, <<>>, <<>>)
-  IN  IF K.policy = "RR"
+  IN  IF w.ex THEN [cs |-> w.cs, fwd |-> w.fwd, ex |-> FALSE, fail |-> B]
+      ELSE IF K.policy = "RR"
       THEN IF w.tos = <<>> THEN [cs |-> w.cs, fwd |-> w.fwd, ex |-> FALSE]
            ELSE LET r == RRSchedule(w.cs, w.tos)
                 IN  [cs |-> r.cs, fwd |-> w.fwd \o r.fwd, ex |-> FALSE]
